@@ -522,7 +522,10 @@ func nestedShrinks(envOld, envNew *schema.Env, ty schema.Ty, v Val, top bool) bo
 			}
 			for _, b := range d.Branches {
 				if b.Disc == v.Disc {
-					return nestedShrinks(envOld, envNew, schema.Ty{K: schema.TyRef, Ref: b.Ref}, v.Elems[0], false)
+					// a struct that IS the branch is the last thing its union decodes, and the union itself is stepped
+					// over by the length on the wire: like a top-level struct, nothing is asked of its own size
+					// (the Lean guard TopStable asks more here than the code needs; the listed class is the narrower one)
+					return nestedShrinks(envOld, envNew, schema.Ty{K: schema.TyRef, Ref: b.Ref}, v.Elems[0], true)
 				}
 			}
 		}
